@@ -451,7 +451,51 @@ func NoBranch() {
 func Obs(s string) {
 	if X != nil {
 		X.Out = append(X.Out, s)
+		return
 	}
+	freeMu.Lock()
+	if freeSink != nil {
+		*freeSink = append(*freeSink, s)
+	}
+	freeMu.Unlock()
+}
+
+var (
+	freeMu   sync.Mutex
+	freeSink *[]string
+)
+
+// RunFree executes a harness body with the scheduler off (every hook is a pass-through) and returns
+// what it observed: the sequential/free-running reference for scenarios whose expected output is most
+// safely defined by the implementation itself. A body that does not finish in time yields
+// ["free-run-timeout"].
+func RunFree(body func(), timeout time.Duration) []string {
+	var out []string
+	freeMu.Lock()
+	freeSink = &out
+	freeMu.Unlock()
+	n0 := runtime.NumGoroutine()
+	defer func() {
+		// goroutines of the free run that are still winding down must be gone before a controlled
+		// execution starts: they would take its hooks for their own
+		for i := 0; i < 500 && runtime.NumGoroutine() > n0; i++ {
+			time.Sleep(10 * time.Millisecond)
+		}
+	}()
+	done := make(chan struct{})
+	go func() { defer close(done); body() }()
+	select {
+	case <-done:
+	case <-time.After(timeout):
+		freeMu.Lock()
+		freeSink = nil
+		freeMu.Unlock()
+		return []string{"free-run-timeout"}
+	}
+	freeMu.Lock()
+	freeSink = nil
+	freeMu.Unlock()
+	return out
 }
 
 // ---------------------------------------------------------------- sync shims state
